@@ -75,6 +75,13 @@ func NewWorld() (*World, error) {
 			return nil, fmt.Errorf("auth fixture %s: %v", p, err)
 		}
 		w.auth[p] = a
+		// the same authenticator configured with a proxy secret that contains commas and blanks: a secret is a string,
+		// compared whole - no part of it, and nothing empty, opens the back channel
+		ac, err := world.NewAuth(world.AuthOpts{Provider: p, ProxySecret: map[string]string{"google": "front,,back,", "okta": ",lead1ng, "}[p]}, w.IdP)
+		if err != nil {
+			return nil, fmt.Errorf("auth fixture %s (comma secret): %v", p, err)
+		}
+		w.auth[p+"/comma"] = ac
 	}
 	var err error
 	if w.other, err = aead.NewMiscreantCipher([]byte("0123456789abcdef0123456789abcdef0123456789abcdef0123456789abcdef")); err != nil {
@@ -205,6 +212,9 @@ func (w *World) RunCell(n int, cell Cell, r *rand.Rand) Line {
 	if a == nil {
 		return Line{Case: n, C: cell, Out: Out{Idp: []string{}}, Panic: "HARNESS: no fixture for " + cell.Prov}
 	}
+	if r.Intn(5) == 0 {
+		a = w.auth[cell.Prov+"/comma"]
+	}
 	id, secret := a.Opts.ProxyID, a.Opts.ProxySecret
 	now := time.Now()
 	var query, body []kv
@@ -309,6 +319,19 @@ func (w *World) RunCell(n int, cell Cell, r *rand.Rand) Line {
 		case "fresh":
 			pay("code", a.SealCode(sess))
 		case "refexp":
+			if r.Intn(8) == 0 {
+				// redeemed while it was good, expired since: having answered once is no reason to answer again
+				sess.RefreshDeadline = time.Now().Add(250 * time.Millisecond)
+				genuine := a.SealCode(sess)
+				form := url.Values{"client_id": {a.Opts.ProxyID}, "client_secret": {a.Opts.ProxySecret}, "code": {genuine}}
+				warm := world.Do(a.Handler, world.NewReq("POST", a.Opts.Host, a.Path("redeem"), http.Header{"Content-Type": {"application/x-www-form-urlencoded"}}, nil, form.Encode()))
+				conc.Note = fmt.Sprintf("the genuine code was redeemed while it was good (status %d), then its refresh deadline passed", warm.Status)
+				for time.Now().Before(sess.RefreshDeadline.Add(30 * time.Millisecond)) {
+					time.Sleep(20 * time.Millisecond)
+				}
+				pay("code", genuine)
+				break
+			}
 			sess.RefreshDeadline = now.Add(-[]time.Duration{world.U, 3 * time.Second, 20 * time.Second, 55 * time.Second, 5 * time.Minute, time.Hour, 40 * time.Millisecond, 300 * time.Millisecond, 900 * time.Millisecond}[r.Intn(9)])
 			pay("code", a.SealCode(sess))
 		case "lifeexp":
